@@ -160,13 +160,21 @@ def gen_sec(rng, name, depth, budget, hostile=0.5, **kw):
     s["repository"] = ("file:///nonexistent/terms_%d.xml" % rng.randrange(2)) if rng.random() < 0.15 else None
     s["link"] = None
     s["include"] = None
+    if kw.get("links"):
+        # references are only stored here (never resolved: the round-trip checks do not finalize)
+        r = rng.random()
+        if r < 0.06:
+            s["link"] = rng.choice(["/some/other section", "../sibling", "/a/b/c"])
+        elif r < 0.1:
+            s["include"] = rng.choice(["file:///nonexistent/inc.xml#/x", "file:///nonexistent/other.xml"])
     cards = kw.get("cards", True)
     s["sec_cardinality"] = rand_card(rng) if cards else None
     s["prop_cardinality"] = rand_card(rng) if cards else None
     np_ = rng.choice([0, 1, 1, 2, 3]) if budget[0] > 0 else 0
     np_ = min(np_, budget[0])
     budget[0] -= np_
-    s["properties"] = [gen_prop(rng, n, hostile, **kw) for n in unique_names(rng, np_, hostile * 0.6)]
+    pkw = {k: v for k, v in kw.items() if k in ("tuples", "cards", "falsy")}
+    s["properties"] = [gen_prop(rng, n, hostile, **pkw) for n in unique_names(rng, np_, hostile * 0.6)]
     s["sections"] = []
     if depth > 0 and budget[0] > 0:
         ns = min(rng.choice([0, 0, 1, 2, 3]), budget[0])
